@@ -275,8 +275,14 @@ TakeEff(w) ==
   /\ UNCHANGED <<cst, sent, pings, net, pending, incoming, streams, outgoing, ext, shut,
                  sentTo, rxn, dseq, iseq, admitted, tmo, flog>>
 
-\* Dev = {}: per-client serialisation of handler starts (the repair); as written: no guard
-InvokeGuard(w) == "InvocationInversion" \in Dev \/ Len(iseq[wtask[w].c]) + 1 = wtask[w].n
+\* Dev = {}: per-client serialisation of handler starts (the minimal repair); as written: no guard.
+\* The behaviours generated for the lock-step replay with Dev = {} must be forceable on ANY repaired pool,
+\* also one that runs the handlers of a client strictly one after the other: there, handlers of the same
+\* client do not overlap.
+InvokeGuard(w) ==
+  \/ "InvocationInversion" \in Dev
+  \/ /\ Len(iseq[wtask[w].c]) + 1 = wtask[w].n
+     /\ (Mode = "lockstep" => \A w2 \in Workers \ {w} : wst[w2] = "run" => wtask[w2].c # wtask[w].c)
 InvokePre(w) == wst[w] = "taken" /\ InvokeGuard(w)
 InvokeEff(w) ==
   /\ wst' = [wst EXCEPT ![w] = "run"]
